@@ -249,3 +249,21 @@ Theorem search_never_contacts_own_id : forall own t init replies,
   forall qs c, In qs (search_run own t init replies) -> In c qs -> c_id c <> own.
 Proof. exact ProofsDht.search_never_contacts_own_id. Qed.
 Print Assumptions search_never_contacts_own_id.
+
+(* UDP tracker with its host name still being resolved *)
+Theorem unresolved_accepts_nothing : forall u from_ok dgram, router_read_dns false u from_ok dgram = (u, EvDrop).
+Proof. exact ProofsDht.unresolved_accepts_nothing. Qed.
+Print Assumptions unresolved_accepts_nothing.
+
+Theorem udp_pending_all_dropped : forall v6 other dgrams,
+  fst (udp_run_pending v6 other dgrams) = udp0 v6 other /\
+  snd (udp_run_pending v6 other dgrams) = repeat EvDrop (length dgrams).
+Proof. exact ProofsDht.udp_pending_all_dropped. Qed.
+Print Assumptions udp_pending_all_dropped.
+
+(* several announces on one tracker object *)
+Theorem http_announce_failure_is_failure : forall ih ev ts body msg,
+  snd (http_receive_done ih ev body ts) = EvFailure msg ->
+  snd (http_announce ih ev ts FamOne [body]) = [HEv (EvFailure msg)].
+Proof. exact ProofsDht.http_announce_failure_is_failure. Qed.
+Print Assumptions http_announce_failure_is_failure.
